@@ -128,6 +128,40 @@ def singular_case(rng, cid, prec, n, sub):
                 fact=rng.choice([0, 1]), trans=0, dumplu=1, timeout=60, kind=sub, trace=2)
 
 
+def snodezero_case(rng, cid, prec):
+    """two or three exactly zero columns INSIDE ONE relaxed supernode (tridiagonal or block-tridiagonal matrix in natural
+    order: the leaf chain of the first `relax` columns is one relaxed supernode), the first of them the globally first
+    singular column: the supernode's own combination of its columns' info codes (p?gstrf_factor_snode) decides"""
+    ncomp = 2 if prec in "cz" else 1
+    rnd = c01.f32 if prec in "sc" else (lambda v: v)
+    relax = rng.choice([4, 6, 8])
+    n = rng.randint(relax + 2, relax + 12)
+    ent = {}
+    for j in range(n):
+        ent[(j, j)] = 4.0 + rng.random()
+        if j + 1 < n:
+            ent[(j + 1, j)] = gen.val(rng); ent[(j, j + 1)] = gen.val(rng)
+        if rng.random() < 0.3 and j + 2 < n:
+            ent[(j + 2, j)] = gen.val(rng)
+    zc = sorted(rng.sample(range(relax - 1), rng.choice([2, 2, 3])))
+    if rng.random() < 0.4 and n > relax + 2:
+        zc.append(rng.randrange(relax, n))       # and one more in a regular panel
+    for kk in zc:
+        for key in list(ent):
+            if key[1] == kk:
+                ent[key] = 0.0
+    A = gen.from_entries(n, ent, "singular-snodezero")
+    vals = []
+    for v in A["vals"]:
+        vals += [rnd(v), rnd(gen.val(rng)) if v != 0 else 0.0] if ncomp == 2 else [rnd(v)]
+    nrhs = rng.choice([1, 2])
+    return dict(id=cid, prec=prec, driver=rng.choice(["gssv", "gssvx"]), stype="NC", m=n, n=n, colptr=A["colptr"], rowind=A["rowind"],
+                vals=vals, nrhs=nrhs, rhs=[rnd(gen.val(rng)) for _ in range(n * nrhs * ncomp)], nprocs=rng.choice([1, 2, 4]),
+                colperm=0, ienv=[rng.choice([1, 2, 4]), relax, rng.choice([8, 200]), 200, 100, -50, -50, -30],
+                perturb=[rng.randint(1, 10 ** 6), rng.choice([0.0, 0.2]), rng.choice([0, 100])],
+                fact=rng.choice([0, 1]), trans=0, dumplu=1, timeout=60, kind="snodezero", trace=2)
+
+
 def bigfirst_case(rng, cid, prec):
     """a big dense block first (relaxed leaf + pipelined interior panels, one interior column exactly zero), small blocks after it
     (some with a zero column), natural order, >= 2 workers, strong perturbation: the worker that drains the queue meets the LATER
@@ -257,12 +291,13 @@ def oracle(c, r):
 
 def run(ctx):
     rng = ctx.rng
-    ctx.cov["rule"] = ("singular inputs of 9 kinds (several zero columns in different subtrees with >= 2 workers and strong perturbation, explicit zero column/row, structurally empty column/row, 3 columns in 2 rows, "
+    ctx.cov["rule"] = ("singular inputs of 10 kinds (several zero columns inside ONE relaxed supernode, several zero columns in different subtrees with >= 2 workers and strong perturbation, explicit zero column/row, structurally empty column/row, 3 columns in 2 rows, "
                        "exact cancellation block, relaxed supernode with fewer rows than columns) x s/d/c/z x p?gssv/p?gssvx x nprocs "
                        "1..8 x orderings 0..3, ASan build, seeded perturbation; non-trivial = n>=3; distinct by matrix+parameters")
     ctx.coq_properties()
     pdrv = ctx.ocaml_model("pivot")
-    subs = ["zerocol", "emptycol", "emptyrow", "zerorow", "structdef", "cancel", "relaxdef", "multizero", "bigfirst", "bigfirst"]
+    subs = ["zerocol", "emptycol", "emptyrow", "zerorow", "structdef", "cancel", "relaxdef", "multizero", "bigfirst", "bigfirst",
+            "snodezero", "snodezero"]
     N = {"d": 56, "s": 14, "z": 14, "c": 14} if ctx.quick() else {"d": 700, "s": 200, "z": 200, "c": 200}
     nok = 0; ninfo = 0; nooo = 0
     for prec in "dszc":
@@ -272,6 +307,7 @@ def run(ctx):
             if prec in "cz" and sub == "cancel":
                 sub = "zerocol"
             cases.append(bigfirst_case(rng, k + 1, prec) if sub == "bigfirst" else
+                         snodezero_case(rng, k + 1, prec) if sub == "snodezero" else
                          singular_case(rng, k + 1, prec, rng.randint(2, 24 if ctx.quick() else 60), sub))
         exe = drv.build(ctx, prec, "asan")
         res = drv.run_grouped(exe, cases, par=max(1, vf.NCPU // 3))
